@@ -6,12 +6,21 @@ props = [json.loads(l) for l in open(os.path.join(HERE, "properties.jsonl"))]
 
 # id -> (technique, level text, level note (what is NOT decided / trusted), design ref)
 CHECKS = {
+ "C01": ("table agreement of the binary codecs and of the key function between writers, schema and the equality test + SSA shape of the NOT universe and provenance of the row count + dominating-guard rules (unknown column, nil bitmap) + shape/must-pass rules of AND/OR operand combination + the typestate/row-id rules shared with C05/C18",
+         "Static, for all datasets, expressions, writers and open modes: a pair's bitmap is written and looked up under the same hash of (column, value) with the same encoding; NOT complements over exactly [0, persisted row count) and the persisted count is the writers' AddRow counter; unknown columns yield errors; possibly-missing bitmaps are nil-guarded; AND/OR combine exactly all operands' results with an intersection/union; no in-place mutation of shared bitmaps.",
+         "Not decided: numerical correctness of cardinalities (roaring); hash collisions and NUL bytes in column names (excluded by the property).", "DESIGN.md §4 C01"),
+ "C02": ("loop-invariant append-base analysis over natural loops (aliasing) + map-iteration-order rule (sorted before use, ascending string comparison) + dominating-guard rules (unknown column error, non-zero cardinality) + provenance of each group field + the write/freshness census shared with C08 and the in-place-mutation rule shared with C03",
+         "Static, for all datasets, expressions and group-by lists: sibling groups cannot share a backing array; per-level values are sorted ascending; unknown columns are errors; only non-empty refinements become groups; each field names its level's column and refining value; Execute keeps no state in the Query and mutates no shared bitmap.",
+         "Not decided: exact counts and tuple sets (values); lexicographic order of the whole list (follows from nested sorted iteration).", "DESIGN.md §4 C02"),
  "C03": ("interprocedural taint of operand cache keys to a hash sink + SSA shape of Get/Put key pairing + effect/freshness census of bitmap mutators over the call graph",
          "Static, for all query sequences and cache sizes: operand keys reach the returned key only through an injective encoding hashed together with a distinct per-operator tag (no arithmetic combiner); each eval looks up/stores under its own key and stores exactly what it returns; no reachable code mutates a bitmap it did not create; index state is written only while opening. These are necessary conditions for cache transparency, decided on every path; the behavioural equality itself is not executed or proven.",
          "Not decided: result equality with an uncached index as such; 64-bit collisions; LRU policy (C07). Trusted: roaring API classification, xxhash, go/ssa, call graph over-approximation.", "DESIGN.md §4 C03"),
  "C04": ("must-hold lock-state dataflow over SSA with exact defer replay + write/freshness census over the call graph from the concurrent entry points",
          "Static, for all schedules: every write to shared memory reachable from Execute/GetSchema/LRUCache.Get/Put is inside an exclusive critical section of a mutex on its access path and every read of such memory holds it; index, schema, getters, Query and globals are not written at all; only read-only bbolt transactions. This proves race freedom of updog's own memory rather than sampling interleavings.",
          "Not decided: sequential-equivalence of results (follows from race freedom + C03.pure, not checked as such). Trusted: sync primitives, thread-safety of concurrent reads in roaring/bbolt/prometheus.", "DESIGN.md §4 C04"),
+ "C05": ("path-sensitive typestate exploration of the writers' flush functions (bitmap nil/dirty/persisted; transaction/bucket lifetime) + table agreement of the binary codecs and of the gob schema encoding + map-order rule on GetSchema + must-pass-through of the temp commit + the row-id rules shared with C18",
+         "Static, for all AddRow sequences and both writers: ids come from a counter that only steps by one under the lock; every pair of a row is registered; in the big writer's merge loop no bitmap is used while nil or dropped before it is written (all paths of the unrolled loop); no transaction or bucket is used after its Commit; codecs, schema encoding and the persisted row counter agree between writers and the open function; GetSchema sorts what it collects from maps.",
+         "Not decided: observational identity of the two writers' outputs; exact schema/value sets (values). Trusted: bbolt tx semantics, roaring serialisation, gob.", "DESIGN.md §4 C05"),
  "C06": ("must-pass-through path search on the SSA CFG of both writers' flush functions (header puts / commits / bitmap puts keyed by the resolved key variables) + dominating-guard and error-flow rules in the open function",
          "Static, for every crash point at commit granularity: on no path can a transaction holding the schema or row counter be committed before the last bitmap put; the two header keys share a transaction and every success return has committed them; the open function nil-guards the bucket, length-guards every binary decode and propagates decode errors. So every committed prefix is rejected by OpenIndex with an error, on all paths including ones that need a crash to execute.",
          "Not decided: equality of answers of a completely written file (C05); sub-transaction crash points. Trusted: bbolt commit atomicity, gob fails on an empty schema item.", "DESIGN.md §4 C06"),
